@@ -40,7 +40,7 @@ void __asan_on_error(void) {
 	if (san_fatal_cb) for (int i = 0; fatal[i]; i++) if (strstr(e->kind, fatal[i])) { san_fatal_cb(e); break; }
 }
 const char *__asan_default_options(void) {
-	return "halt_on_error=0:detect_leaks=1:symbolize=0:abort_on_error=0:print_summary=0:detect_stack_use_after_return=0:allocator_may_return_null=1:handle_segv=1:handle_abort=0";
+	return "halt_on_error=0:detect_leaks=1:symbolize=0:abort_on_error=0:print_summary=0:detect_stack_use_after_return=0:allocator_may_return_null=1:handle_segv=1:handle_abort=0:fast_unwind_on_malloc=0";
 }
 #endif
 
